@@ -44,7 +44,10 @@ inline std::vector<Named> others() {
 	r.push_back({"map:nested", Val::map({{Val::str("x"), Val::arr({Val::integer(1), Val::integer(2)})}, {Val::integer(5), Val::map()}})});
 	r.push_back({"ts:0", Val::ts(0, 0)}); r.push_back({"ts:1.000000001", Val::ts(1, 1)}); r.push_back({"ts:2^32-1", Val::ts(4294967295ll, 0)}); r.push_back({"ts:2^32", Val::ts(4294967296ll, 0)});
 	r.push_back({"ts:2^34-1.999999999", Val::ts((1ll << 34) - 1, 999999999)}); r.push_back({"ts:2^34", Val::ts(1ll << 34, 0)}); r.push_back({"ts:-1.5", Val::ts(-1, 500000000)}); r.push_back({"ts:min", Val::ts(INT64_MIN, 0)});
-	r.push_back({"ext:5", []{ Val v; v.k = Val::Ext; v.ext_type = 5; v.s = "ab"; return v; }()});
+	for (size_t n : {1u, 2u, 3u, 4u, 8u, 16u, 17u}) r.push_back({"ext:5/len" + std::to_string(n), [n]{ Val v; v.k = Val::Ext; v.ext_type = 5; v.s = std::string(n, 'e'); return v; }()});
+	r.push_back({"str:len300", Val::str(std::string(300, 'z'))}); r.push_back({"bin:300", Val::bin(std::string(300, 'b'))});
+	{ Val a = Val::arr(); for (int i = 0; i < 17; ++i) a.a.push_back(Val::integer(i)); r.push_back({"arr:17", a}); }
+	{ Val m = Val::map(); for (int i = 0; i < 17; ++i) m.m.emplace_back(Val::integer(i), Val::integer(i)); r.push_back({"map:17", m}); }
 	return r;
 }
 inline std::vector<Named> scalarsAll() { auto r = ints(); for (auto& x : floats()) r.push_back(x); for (auto& x : others()) r.push_back(x); return r; }
